@@ -20,7 +20,7 @@ from joblib import Memory  # noqa: E402
 
 import c11funcs  # noqa: E402
 
-mem = Memory(root, verbose=0, compress=role.get("compress", False))
+mem = Memory(root, verbose=0, compress=role.get("compress", False), mmap_mode=role.get("mmap_mode"))
 validation = {"expired": (lambda metadata: False), "valid": (lambda metadata: True), "expires_after": joblib.expires_after(seconds=0)}.get(role.get("validation"))
 cached = mem.cache(c11funcs.f, cache_validation_callback=validation)
 results = []
